@@ -28,6 +28,8 @@ func (m *MTProto) GetSeqNo() int32 {
 
 // GetServerSalt returns current server salt 🧐
 func (m *MTProto) GetServerSalt() int64 {
+	m.saltMutex.RLock()
+	defer m.saltMutex.RUnlock()
 	return m.serverSalt
 }
 
@@ -66,7 +68,7 @@ func (m *MTProto) SaveSession() (err error) {
 	return m.tokensStorage.Store(&session.Session{
 		Key:      m.authKey,
 		Hash:     m.authKeyHash,
-		Salt:     m.serverSalt,
+		Salt:     m.GetServerSalt(),
 		Hostname: m.addr,
 	})
 }
